@@ -40,28 +40,40 @@ def lift(f, *args, **kw):
     leaf-wise application; with memo=<key> the value table computed on the first path of a unit
     is reused on later paths (paths rebuild the same nodes in the same order)
     """
+    from pyvc import fd
+    from pyvc.sym import bool_node, bool_of_node
+
     key = kw.get("memo")
     if key is None:
         return fv_apply(f, *args)
-    from pyvc import fd
-
+    args = [bool_node(a.z) if isinstance(a, SBool) else a for a in args]
     nodes = []
     for a in args:
         if isinstance(a, fd.Node) and a not in nodes:
             nodes.append(a)
     shape = tuple(len(n.values) for n in nodes)
+
+    def wrap(r):
+        if isinstance(r, fd.Node) and len(r.values) == 2 and r.values[0] is False and r.values[1] is True:
+            return SBool(bool_of_node(r))
+        return r
+
     hit = _LIFT_MEMO.get(key)
-    if hit is not None and hit[0] == shape and len(nodes) == hit[3]:
+    if hit is not None and hit[0] == shape:
         vals, table = hit[1], hit[2]
         if table is None:
             return vals
-        return fd.Node(list(vals), nodes, table)
-    r = fv_apply(f, *args)
-    if isinstance(r, fd.Node) and list(r.parents) == nodes:
-        _LIFT_MEMO[key] = (shape, list(r.values), r.table, len(nodes))
-    elif not isinstance(r, (fd.Node, SBool)):
-        _LIFT_MEMO[key] = (shape, r, None, len(nodes))
-    return r
+        return wrap(fd.Node(list(vals), nodes, table))
+    try:
+        r = fd.apply(f, *args)
+    except fd.ApplyRaise:
+        return fv_apply(f, *args)
+    if isinstance(r, fd.Node):
+        if list(r.parents) == nodes:
+            _LIFT_MEMO[key] = (shape, list(r.values), r.table)
+    else:
+        _LIFT_MEMO[key] = (shape, r, None)
+    return wrap(r)
 
 
 def fv_int_var(ctx, name, values):
